@@ -333,10 +333,9 @@ func (g *Gen) oneofSel(o *Occ, grp *OneofGroup) string {
 			cond = "w." + s.GoName + " != nil"
 		case s.Kind == SScalar && s.Leaf.Ptr:
 			cond = "w." + s.GoName + " != nil"
-		case s.Kind == SScalar && s.Leaf.HasZero:
-			cond = "!" + zeroExpr(s.Leaf, "w."+s.GoName)
 		case s.Kind == SScalar:
-			cond = "true" // by-value time/duration: always rendered
+			// a zero payload (also a zero by-value time/duration) is identified with "unset"
+			cond = "!" + zeroExpr(s.Leaf, "w."+s.GoName)
 		default:
 			cond = "true"
 		}
